@@ -439,6 +439,26 @@ def _call_dominates_rets(F, callee, argidx=None, argpred=None):
     return True, 'every ret dominated by %s' % callee
 
 
+def expect_no_const_store_to(F, param, off, value):
+    """no reachable store of the constant `value` (directly or through a phi/select of constants) into (param + off);
+    stores of computed values are not judged here"""
+    for i in _site_insts(F):
+        if i['op'] != 'store':
+            continue
+        base, o = F.addr_of(i['ops'][1])
+        if base['k'] == 'a' and base['v'] == param and o == off:
+            s = _const_set(F, i['ops'][0])
+            if s is not None and value in s:
+                return False, 'store of %d to arg%d+%d at line %s' % (value, param, off, i.get('line'))
+            if s is None:
+                v = i['ops'][0]
+                if v['k'] == 'i' and F.insts[v['v']]['op'] in ('phi', 'select'):
+                    for x in F.insts[v['v']]['ops']:
+                        if x['k'] == 'c' and x['v'] == value:
+                            return False, 'store of possibly %d to arg%d+%d at line %s' % (value, param, off, i.get('line'))
+    return True, 'no store of the constant %d' % value
+
+
 def expect_no_store_to(F, param, off, value=None, size=None):
     """no reachable store into (param + off) [of constant value]"""
     for i in _site_insts(F):
